@@ -288,7 +288,25 @@ def _c19(tier, seed):
              replay=False, validate=False, noreplay_reason="provenance of random draws exists only in the engine"),
     ]
 
+def _c12(tier, seed):
+    q = tier == "quick"
+    runs = ["H_C12_missing()"] + ["H_C12_paths(%d)" % k for k in range(5)]
+    for kl, hl, ho in ([(0, 0, 0), (1, 2, 1), (3, 8, 4), (5, 3, 9)] if q else [(a, b, c) for a in range(0, 7) for b in (0, 3, 8) for c in (0, 5, 12)]):
+        runs.append("H_C12_codec(%d,%d,%d)" % (kl, hl, ho))
+    runs += ["H_C12_store_load(3,3,1)", "H_C12_store_load(3,3,0)", "H_C12_truncated(3,3)"]
+    if not q:
+        runs += ["H_C12_store_load(8,10,1)", "H_C12_truncated(9,12)"]
+    return [dict(name="files", pkg="internal/session", harness=["harness/session/c12.go"], runs=runs, solver="z3", walllimit=300, timeout=1500,
+                 validate_runs=["H_C12_codec(3,8,4)", "H_C12_store_load(3,3,0)", "H_C12_paths(3)", "H_C12_missing()"], veclen=200)]
+
 PROPS = {
+    "C12": dict(
+        jobs=_c12,
+        bounds={"quick": "codec round trip for keys/hashes of lengths {0,1,3,5}/{0,2,8,3} (every residue mod 3 of base64), every 64-bit salt, hostnames of 0..9 bytes over [A-Za-z0-9.:_[]-]; Store/Load/Store/Load on one path with every pair of modification times t1 <= t2 <= t1+255 s (equality included), same and fresh loader; missing file; relative, ./relative, sub-directory, absolute paths and the bare file name; the written file cut at every byte",
+                "thorough": "keys 0..6, hashes {0,3,8}, hostnames {0,5,12}; longer sessions for the history and truncation scenarios"},
+        outside="real file I/O and the OS's torn-write behaviour (symbolic one-level file system: os.Stat/ReadFile/WriteFile/Chtimes/Truncate modelled); real encoding/json (modelled for flat string structs without escapes: hostnames needing JSON escaping, non-ASCII, are outside); resuming a client from the store (NewMTProto)",
+        assumptions=["encoding/base64.StdEncoding modelled exactly by bit arithmetic (line breaks in input are not skipped)", "encoding/json modelled as a canonical writer / object parser for structs of plain strings", "os file functions modelled by an in-memory map; WriteFile stamps the stub clock"],
+    ),
     "C19": dict(
         jobs=_c19,
         level_text="bounded symbolic execution of makeAuthKey / GetInputCheckPassword with every random source replaced by fresh symbols tagged by origin (crypto/rand, math/rand, time-seeded generator, clock); the terms sent as nonce, carried in the RSA block (new_nonce), sent as g_b / used as auth key, and sent as SRP A are inspected for the sources they mention (a term that does not mention a source cannot depend on it), and the solver shows each of them takes at least two values",
